@@ -156,6 +156,31 @@ def r2(cx, rec):
         rec.need((a or '').endswith('piece_length'), 'plan-arg', f, bb, 'planner is given %s' % a)
 
 
+def cancel_clears_state(cx, rec):
+    """a download that is given up (PieceCancel reported to the manager) leaves no assembly state behind: the slot is cleared
+    on every path to the report, so late blocks of the abandoned piece cannot complete a stale buffer that the manager
+    would book on the next assignment"""
+    F = cx.F
+    reps = {F.owner_fn(f).path for f in C.fns_constructing(F, r'^commands::PeerCmd$', 'PieceCancel')}
+    n = 0
+    for rp in reps:
+        for f, bb in C.callers(F, rp):
+            args = f.expr_call(bb)[2]
+            cancel = any(a[0] == 'const' and a[3] == 'bool' and a[1] == 0 for a in args[1:]) or not any(a[0] == 'const' and a[3] == 'bool' for a in args[1:])
+            if not cancel:
+                continue
+            n += 1
+            clears = [bi for bi, si, s in f.stores() if access_path(f.expr_place(s['lhs'])) == 'self.' + V.rx_slot(F)
+                      and f.expr_rvalue(s['rv'])[0] == 'agg' and f.expr_rvalue(s['rv'])[3] == 'None']
+            clears += [b2 for b2 in mirq.real_calls(f) if f.expr_call(b2)[4].get('name') == 'take' and access_path(f.expr_call(b2)[2][0]) == 'self.' + V.rx_slot(F)]
+            ok, bad = C.must_pass(f, clears, [bb]) if clears else (False, None)
+            rec.site(f, bb, 'cancel reported; assembly state cleared on every path to it: %s' % ok)
+            rec.need(ok, 'cancel-keeps-state/' + F.owner_fn(f).path, f, bb,
+                     'the download is reported as cancelled while its assembly state stays in place: late blocks can complete the stale '
+                     'buffer, and the resulting PieceDone is booked on whatever piece the manager assigned next')
+    rec.need(n >= 1, 'no-cancel-report', 'peer_handler', None, 'no site reports a cancelled download')
+
+
 def fresh_assignment(cx, rec):
     """a new assignment always starts from a fresh assembly state: in the function that installs Some(<new state>), every
     path from its entry to a request (or to its normal return) passes through that store, and the stored value is built from
@@ -198,11 +223,27 @@ def r3(cx, rec):
         cf = F.fn(clo[0][1])
         from rules.C14 import closure_truth
         tt = closure_truth(F, cf)
+        # what the element is compared with: the received block's begin / length, taken from the message directly or from a
+        # local of the handler that holds them (captured by the closure)
+        from rules.C13 import captures
+        caps = captures(F, clo[0])
+        begin_tok = {'block_begin'}
+        len_tok = {'block_length'}
+        for up, ex in caps.items():
+            sx = show(C.through_helper(ex))
+            sx0 = show(ex)
+            if 'block_begin' in sx or 'block_begin' in sx0:
+                begin_tok.add(up)
+            if 'block_length' in sx or 'block_length' in sx0:
+                len_tok.add(up)
+
+        def has(k, toks):
+            return any(re.search(r'\b%s\b' % re.escape(t), k) for t in toks)
         # element kept (true) unless begin == block_begin && length == block_length
         dropped = [a for a, r in tt if r is False]
-        okd = bool(dropped) and all(any('block_begin' in k and '.0' in k and v is True for k, v in a.items()) and
-                                    any('block_length' in k and '.1' in k and v is True for k, v in a.items()) for a in dropped)
-        kept_when_equal = [a for a, r in tt if r is True and any('block_begin' in k and v is True for k, v in a.items()) and any('block_length' in k and v is True for k, v in a.items())]
+        okd = bool(dropped) and all(any(has(k, begin_tok) and '.0' in k and v is True for k, v in a.items()) and
+                                    any(has(k, len_tok) and '.1' in k and v is True for k, v in a.items()) for a in dropped)
+        kept_when_equal = [a for a, r in tt if r is True and any(has(k, begin_tok) and v is True for k, v in a.items()) and any(has(k, len_tok) and v is True for k, v in a.items())]
         rec.site(cf, None, 'retain predicate truth table: %s' % [({k[-28:]: v for k, v in a.items()}, r) for a, r in tt])
         rec.need(okd and not kept_when_equal, 'retain-predicate', cf, None, 'the removed element is not exactly the one equal in begin and length')
     # after the copy: completion guard or send_request
@@ -225,6 +266,7 @@ def r3(cx, rec):
         rec.need(bool(sc) and ok, 'assignment-without-request', nf, st[0], 'a new piece assignment does not send a request')
     rec.need(bool(news), 'no-assignment', H, None, 'no function installs a new assembly state')
     fresh_assignment(cx, rec)
+    cancel_clears_state(cx, rec)
     # the assembly state is never cleared after a (re)assignment on the same path
     installers = {F.owner_fn(nf).path for nf in news}
     changed = True
